@@ -153,7 +153,16 @@ def check_case(case):
             break
         expected[nm] = [arr[p] if p is not None else f for p in positions]
     if not castable:
-        res.tag('skipped:fill-not-convertible')
+        # a fill value that the variable's dtype cannot hold: the new periods cannot "hold the fill value", so the call
+        # has to refuse (as NumPy does) whenever there is a new period to fill - never succeed with some other value
+        res.tag('fill-not-convertible')
+        if any(p is None for p in positions):
+            res.nontrivial = True
+            if out.ok:
+                res.fail(f'unconvertible-fill-accepted/{kind}', f'{detail}: returned an object although a fill value cannot be '
+                         f'converted to its variable\'s dtype')
+            elif not isinstance(out.exc, (ValueError, TypeError, OverflowError)):
+                res.fail(f'unconvertible-fill/raised-{out.exc_name}/{kind}', f'{detail}: {out!r}')
         return res
     if not out.ok:
         res.fail(f'raised-{out.exc_name}/{kind}/{case["old"]["k"]}', f'{detail}: {out!r}')
@@ -324,8 +333,8 @@ def strategy():
         names = ['X', 'N', 'B', 'S'] + (['T'] if kind == 'container' else ['Y', 'status', 'iterations']) + ['Q', 'x']
         fills = {}
         for nm in draw(st.lists(st.sampled_from(names), max_size=3, unique=True)):
-            fills[nm] = draw(st.sampled_from({'X': [0.0, -2.5, 9], 'Y': [0.0, 1.5], 'N': [0, 3, -1], 'B': [False, True], 'S': ['', 'q', 'abc'],
-                                               'T': ['', 'text'], 'status': ['', 'S', '.'], 'iterations': [0, 5], 'Q': [1], 'x': [2]}[nm]))
+            fills[nm] = draw(st.sampled_from({'X': [0.0, -2.5, 9], 'Y': [0.0, 1.5], 'N': [0, 3, -1, 'abc'], 'B': [False, True], 'S': ['', 'q', 'abc'],
+                                               'T': ['', 'text'], 'status': ['', 'S', '.'], 'iterations': [0, 5, 'abc'], 'Q': [1], 'x': [2]}[nm]))
         case['fills'] = fills
         case['strict_arg'] = draw(st.sampled_from([None, None, True, False]))
         case['rep'] = draw(tapes(2))
